@@ -712,8 +712,7 @@ fn run_in(dir: &std::path::Path, head: &Head, ops: &[Op]) -> String {
 //   * keys are never reused (a deleted unique key is not inserted again);
 //   * a session deletes only committed rows that no other open session has touched;
 //   * UPDATE is issued only in autocommit mode while no session is open, and only on tables without a unique index;
-//   * statements that fail do so on their first row;
-//   * VACUUM only in histories without a rolled-back DELETE before it.
+//   * statements that fail do so on their first row.
 // The finding families lift exactly one restriction each and carry a `kf:` tag.
 
 #[derive(Clone, Copy, PartialEq)]
@@ -1140,9 +1139,12 @@ impl<'a> Gen<'a> {
                 self.open.clear();
             }
         }
-        if self.open.is_empty() && !self.rb_delete && self.rng.chance(1, 4) {
+        if self.open.is_empty() && self.rng.chance(1, 4) {
             self.push("vacuum".into());
             self.tag("vacuum_before_close");
+            if self.rb_delete {
+                self.tag("vacuum_after_rolled_back_delete");
+            }
         }
         let cfg = gen_cfg(self.rng);
         self.push(format!("reopen {} {}", how, cfg));
